@@ -206,6 +206,7 @@ type crashRun struct {
 	hookErr    string
 	versionsUp bool
 	maxGroup   int
+	rewrites   int
 }
 
 func valueBytes(vid, size int) []byte {
@@ -469,6 +470,7 @@ func (r *crashRun) fsOp(op int, name, name2 string, data []byte) {
 			}
 		}
 	case base == "CURRENT.tmp" && op == opRename:
+		r.rewrites++
 		if b, err := os.ReadFile(name2); err == nil {
 			r.curMan = strings.TrimSpace(string(b))
 		}
@@ -1278,6 +1280,9 @@ func runWorkload(c *corr.Ctx, cfg *wlConfig, label string) error {
 	if !r.versionsUp {
 		return errors.New("commit versions of successive transactions are not increasing")
 	}
+	if r.rewrites > 0 {
+		c.CountN("manifest_rewrites_recorded", r.rewrites)
+	}
 	if r.maxGroup > 1 {
 		c.Count("workloads_with_multi_request_commit_batch")
 		c.CountN("max_requests_in_commit_batch_sum", r.maxGroup)
@@ -1345,7 +1350,7 @@ func runWorkload(c *corr.Ctx, cfg *wlConfig, label string) error {
 		}
 	}
 	var torn []*tornPt
-	maxPts := 5
+	maxPts := 3
 	for i := 0; i < len(walPts) && i < maxPts; i++ {
 		p := walPts[i*len(walPts)/min(len(walPts), maxPts)]
 		var seg, k int
@@ -1361,8 +1366,12 @@ func runWorkload(c *corr.Ctx, cfg *wlConfig, label string) error {
 		if len(ends) > 1 {
 			last = ends[len(ends)-2]
 		}
-		for _, cut := range []int{last + (len(data)-last)/2, len(data) - 3, last + 2} {
-			if cut > last && cut < len(data) {
+		// one cut per byte class of the last record: inside the length header, inside the payload,
+		// exactly between payload and checksum, inside the checksum (first and last byte missing)
+		seenCut := map[int]bool{}
+		for _, cut := range []int{last + 2, last + (len(data)-last)/2, len(data) - 4, len(data) - 3, len(data) - 1} {
+			if cut > last && cut < len(data) && !seenCut[cut] {
+				seenCut[cut] = true
 				torn = append(torn, &tornPt{p: p, torn: k, cut: cut})
 			}
 		}
@@ -1458,7 +1467,7 @@ func genWorkload(c *corr.Ctx, txn, sync bool) *wlConfig {
 	cfg := &wlConfig{Txn: txn, Sync: sync, Buckets: 1 + rng.Intn(2), Threshold: 32, VlogSize: 160 + 40*rng.Intn(4), ManRewr: 64 << 20}
 	cfg.MemTable = []int64{150, 260, 1 << 20}[rng.Intn(3)]
 	if rng.Intn(3) == 0 {
-		cfg.ManRewr = 200
+		cfg.ManRewr = 100
 	}
 	nb := 5 + rng.Intn(8)
 	moved, gced := false, false
@@ -1532,7 +1541,7 @@ func runCrash(c *corr.Ctx) error {
 	installHooks()
 	c.Meta("run_module", "RunCrash")
 	c.Meta("exhaustive", false)
-	c.Meta("rule", "small workloads (<= 12 batches: plain Set/Del or transactions of 1-3 keys, in transactional workloads also 2-3 transactions committed concurrently so that one commit batch holds several requests, 4 keys, values on both sides of ValueThreshold, 1-2 value-log buckets, tiny value-log files and memtables so that both rotate, SyncWrites on/off, forced rotations, gated flushes, one L0 move, one value-log GC, optional manifest rewrites) on a real DB over a recording vfs.FS; every state-changing vfs operation and every verifhook.Crash site is a crash point: the directory image at that instant is reopened with the real Open, every key is read through Get / GetVersionedEntry / a transaction, then rotation + flush of every memtable, new writes of other keys until the value-log file of every bucket has rotated, GC of every sealed value-log file (newest first) are forced and the reads repeated after each stage, then a clean reopen; every workload ends with a recorded clean Close (which releases the backlog of sealed memtables: back-to-back flushes) whose directory is reopened the same way; on up to 5 WAL-write crash points per workload the image, and the image with that write torn at three byte positions inside its last record, are reopened, a second incarnation writes two acknowledged batches, closes cleanly, and the directory is reopened and read again. non-trivial = crash point inside a batch or a maintenance step")
+	c.Meta("rule", "small workloads (<= 12 batches: plain Set/Del or transactions of 1-3 keys, in transactional workloads also 2-3 transactions committed concurrently so that one commit batch holds several requests, 4 keys, values on both sides of ValueThreshold, 1-2 value-log buckets, tiny value-log files and memtables so that both rotate, SyncWrites on/off, forced rotations, gated flushes, one L0 move, one value-log GC, optional manifest rewrites) on a real DB over a recording vfs.FS; every state-changing vfs operation and every verifhook.Crash site is a crash point: the directory image at that instant is reopened with the real Open, every key is read through Get / GetVersionedEntry / a transaction, then rotation + flush of every memtable, new writes of other keys until the value-log file of every bucket has rotated, GC of every sealed value-log file (newest first) are forced and the reads repeated after each stage, then a clean reopen; every workload ends with a recorded clean Close (which releases the backlog of sealed memtables: back-to-back flushes) whose directory is reopened the same way; on up to 3 WAL-write crash points per workload the image, and the image with that write torn at one position per byte class of its last record (inside the length header, inside the payload, between payload and checksum, inside the checksum), are reopened, a second incarnation writes two acknowledged batches, closes cleanly, and the directory is reopened and read again. non-trivial = crash point inside a batch or a maintenance step")
 	if c.Replay != "" {
 		cases, err := c.ReplayCases()
 		if err != nil {
@@ -1602,6 +1611,15 @@ func runCrash(c *corr.Ctx) error {
 			{Kind: "batch", Entries: []wlEntry{{Key: 2, Size: 10}, {Key: 1, Size: 40}}}, {Kind: "rot"},
 			{Kind: "batch", Entries: []wlEntry{{Key: 3, Size: 10}}}, {Kind: "rot"},
 			{Kind: "batch", Entries: []wlEntry{{Key: 1, Del: true}}}}})
+	// manifest rewrites: a 64-byte rewrite threshold makes LogEdits rewrite the manifest every
+	// few edits (new MANIFEST file, CURRENT.tmp, rename, removal of the old file): every one of
+	// these file operations is a crash point
+	scripts = append(scripts, &wlConfig{Txn: true, Sync: true, Buckets: 1, MemTable: 1 << 20, VlogSize: 400, Threshold: 32, ManRewr: 64,
+		Steps: []wlStep{{Kind: "batch", Entries: []wlEntry{{Key: 1, Size: 10}, {Key: 2, Size: 40}}}, {Kind: "rot"}, {Kind: "flush"},
+			{Kind: "batch", Entries: []wlEntry{{Key: 3, Size: 10}}}, {Kind: "rot"}, {Kind: "flush"},
+			{Kind: "batch", Entries: []wlEntry{{Key: 1, Size: 40}}}, {Kind: "rot"}, {Kind: "flush"},
+			{Kind: "batch", Entries: []wlEntry{{Key: 4, Size: 10}}}, {Kind: "rot"}, {Kind: "flush"},
+			{Kind: "batch", Entries: []wlEntry{{Key: 2, Del: true}}}}})
 	for i, cfg := range scripts {
 		c.Count("workload_scripted")
 		if err := runWorkload(c, cfg, fmt.Sprintf("script%d", i)); err != nil {
